@@ -348,7 +348,7 @@ SPECS['C16'] = dict(
         '<double> with a 0.5 tolerance comparator, <float> and <std::string>; a model value of the same type with the same Eq decides per operation whether every live subscriber must be called '
         'exactly once with the post-operation value (by reference to the held value) or nobody; value() is compared bit for bit, an Eq-equal assignment must leave it untouched, and with default '
         'equality every recording subscriber must hold value(). Values are kept where the arithmetic itself is defined. non-trivial = history with a value-changing operation; distinct = distinct histories',
-        samples, observed=pick(agg, 'histories', 'ops', 'changingOps', 'nonChangingOps', 'subscriberCalls', 'subscribes', 'unsubscribes', 'eqEqualButDifferentAssignments', 'observablesMovedBeforeUse', 'reentrantClampHistories', 'reentrantCorrections', 'nontrivialCases'),
+        samples, observed=pick(agg, 'histories', 'ops', 'changingOps', 'nonChangingOps', 'subscriberCalls', 'subscribes', 'unsubscribes', 'eqEqualButDifferentAssignments', 'observablesMovedBeforeUse', 'reentrantClampHistories', 'reentrantCorrections', 'longLifeCycles', 'throwingSubscriberRuns', 'unsubscribeInCallbackRuns', 'nontrivialCases'),
         operations=agg.get('opCount', {}), types=agg.get('types', {})),
     assumptions=['no signed overflow, no integer division by zero, no NaN: UBSan then speaks only about tulz', 'the Observable is not moved while subscriptions exist'],
     manifest=dict(engine='h_observable', text='Lock-step model of the held value with the same equality; the call log of recording subscribers is compared after every operation over seeded histories for '
